@@ -175,6 +175,7 @@ def check(rng, deep):
                 ('multi', m.multi, mc, ['r', 'w', 'shift_e', 'shift_z'], ['A', 'C'], True),
                 ('multi_stage', m.multi_stage, mc, ['r', 'shift_e', 'shift_z'], ['A', 'C'], False),      # two exogenous STAGES with separately produced Markov matrices: shocking one leaves the other stage's law of motion unperturbed
                 ('twoasset', m.twoasset, m.TWO_CALIB, ['rb', 'ra', 'tax'], ['A', 'B', 'C'], True),
+                ('twoasset_short_grid', m.twoasset, dict(m.TWO_CALIB, bmax=3.0, amax=30.0), ['rb', 'ra'], ['A', 'B', 'C'], True),      # 45% of the mass chooses liquid assets ABOVE the top grid point: the lottery extrapolates, and its derivative must be that of the extrapolating map
                 ('twoasset_stage', m.twoasset_stage, m.TWO_CALIB, ['rb', 'ra', 'tax'], ['A', 'B', 'C'], False),      # two-dimensional policy lottery, as HetBlock and as a stage
                 ('dchoice', m.dchoice, m.DCHOICE_CALIB, ['r', 'atw', 'f', 'vphi'], ['A', 'C'], False)]       # stage block with a logit discrete-choice stage and two exogenous stages
     for name, blk, calib, inputs, outputs, has_opts in fixtures:
